@@ -75,13 +75,13 @@ func (l *serverLog) add(e event) {
 }
 
 type wsServer struct {
-	addr    string
-	stop    func()
-	log     *serverLog
-	conn    atomic.Pointer[websocket.Conn]
-	wrote   [][]int32 // [writer][seq] 1 = WriteMessage returned nil
-	ending  int32
-	wdone   chan struct{}
+	addr   string
+	stop   func()
+	log    *serverLog
+	conn   atomic.Pointer[websocket.Conn]
+	wrote  [][]int32 // [writer][seq] 1 = WriteMessage returned nil
+	ending int32
+	wdone  chan struct{}
 }
 
 func startServer(c Case) (*wsServer, error) {
